@@ -21,7 +21,7 @@ import Iota.Proofs.B1T8
 import Iota.Gen.B1T6
 import Iota.Model.B1T6
 import Iota.Tie.GoFlow
-import Iota.Tie.Bech32Code
+import Iota.Tie.BV
 
 namespace Iota.Tie.B1T8Code
 open Iota Iota.Go
